@@ -433,7 +433,7 @@ func (r *rig) idleProbe(n int, desc func() string) bool {
 		tok := fmt.Sprintf("probe%d", i)
 		o := r.probeOnce(tok)
 		if o.Status == -2 {
-			ev.Class(r.part, "inconclusive")
+			markInconclusive(r.part)
 			return false
 		}
 		if o.Got && o.Status == okStatus(r.su.Proto) && r.attemptsSeen(tok) >= 1 {
@@ -539,7 +539,7 @@ func runBatch(t ev.TB, part string, b *Batch) (classes []string, nontrivial bool
 	closeKept := br.closeKept
 	defer closeKept()
 	if br == nil || atomic.LoadInt32(&br.dialFail) > 0 {
-		ev.Class(part, "inconclusive")
+		markInconclusive(part)
 		return nil, false, false
 	}
 	r.checkNegatives(desc)
@@ -624,21 +624,17 @@ func runBatch(t ev.TB, part string, b *Batch) (classes []string, nontrivial bool
 
 // TestPropBatch: conservation over generated mixed batches.
 func TestPropBatch(t *testing.T) {
-	var inconclusive, total int
+	var total int
 	ev.Check(t, func(rt *rapid.T) {
 		b := genBatch(rt)
 		var classes []string
 		var nontrivial, concluded bool
 		defer func() {
 			total++
-			if !concluded {
-				inconclusive++
-			}
+			_ = concluded
 			ev.Case("batch", nontrivial, []byte(b.json()), func() interface{} { return b }, classes...)
 		}()
 		classes, nontrivial, concluded = runBatch(rt, "batch", b)
 	})
-	if total >= 10 && inconclusive*5 > total {
-		t.Fatalf("too many inconclusive batches: %d of %d (machine too loaded for the rig)", inconclusive, total)
-	}
+	tooManyInconclusive(t, total)
 }
